@@ -99,6 +99,9 @@ func (rt *Platform) Cls() {
 // Read reads a line of input from stdin and strips trailing newline.
 func (rt *Platform) Read() string {
 	s, err := rt.reader.ReadString('\n')
+	if err == io.EOF {
+		return s // last line without trailing newline, or no input left
+	}
 	if err != nil {
 		panic(err)
 	}
